@@ -71,7 +71,12 @@ class OutOfDomain(RefError):
     pass
 
 
+TRACE = None  # when a list: every leaf read start offset is appended (C08's BufferEmptyError rule)
+
+
 def _take(data, pos, n):
+    if TRACE is not None:
+        TRACE.append(pos)
     if n < 0 or pos + n > len(data):
         raise Short(pos, len(data) - pos, n)
     return data[pos:pos + n], pos + n
@@ -275,6 +280,13 @@ def decode(desc, data, pos=0):
         n, pos = decode(desc[1], data, pos)
         if n < 0:
             raise RefError("negative array length")
+        ms = min_size(desc[2])
+        if ms == 0 and n > 4096:
+            raise RefError("degenerate: huge count of zero-width elements")
+        if ms and n * ms > len(data) - pos:
+            # cannot fit: fail where the first missing element would start, without looping n times
+            fit = (len(data) - pos) // ms
+            return decode(("array", fit + 1, desc[2]), data, pos)
         return decode(("array", n, desc[2]), data, pos)
     if k == "uarray":
         out = []
@@ -300,17 +312,19 @@ def decode(desc, data, pos=0):
         return b[:n].decode("iso-8859-1"), pos
     if k == "udt":
         _, size, members, bits, private = desc
-        raw, end = _take(data, pos, size)
+        end = pos + size
+        lim = data[:end] if len(data) > end else data
         out = {}
         for n, d, off in members:
-            x, _ = decode(d, raw, off)
+            x, _ = decode(d, lim, pos + off)
             if n not in private:
                 out[n] = x
         for n, off, bit in bits:
-            if off >= len(raw):
-                raise Short(pos + off, 0, 1)
+            b, _ = _take(lim, pos + off, 1)
             if n not in private:
-                out[n] = bool(raw[off] >> bit & 1)
+                out[n] = bool(b[0] >> bit & 1)
+        if len(data) < end:
+            raise Short(len(data), 0, end - len(data))
         return out, end
     if k == "ipv4":
         b, pos = _take(data, pos, 4)
